@@ -69,8 +69,8 @@ theorem C13_join_text (id : Ident) (cs : List Err) :
 theorem C13_transfer (vf : Err → Str) (tag k : Nat) (id : Ident) (mk : MultiKind) (cs : List Err)
     (h : stable (.multi id mk cs) = true) :
     ∃ e', hopsFull vf tag k (.multi id mk cs) = some e' ∧
-      ∃ l, shape e' = .node l (shapeL cs) ∧ l.text = text (.multi id mk cs) ∧ l.multi = true := by
+      ∃ l, shape vf e' = .node l (shapeL vf cs) ∧ l.text = text (.multi id mk cs) ∧ l.multi = true := by
   obtain ⟨e', h1, hs, _⟩ := C01_hops vf tag (.multi id mk cs) h k
-  exact ⟨e', h1, label (.multi id mk cs), by rw [hs]; simp [shape], rfl, rfl⟩
+  exact ⟨e', h1, label vf (.multi id mk cs), by rw [hs]; simp [shape], rfl, rfl⟩
 
 end ErrModel
